@@ -64,6 +64,12 @@ func planFor(prop, tier string) plan {
 			p.Alpha.Incentive = true
 			p.Alpha.Ticks = []int{0, 2}
 		}
+		if prop == "C07" {
+			// a pool opened below price 1 on a tick that is NOT a multiple of the spacing (tick -463, spacing 100): the
+			// stored current tick is the price's tick rounded DOWN to the spacing, and ranges 1/2/5 have boundaries on the
+			// two neighbouring multiples
+			p.Configs = append(p.Configs, Config{TickSpacing: 100, SpreadFactor: "0.001", Scaled: true, First0: 10000000000, First1: 9999537500, RangeUnit: 100})
+		}
 		if quick {
 			p.Depth, p.SeedDep = 3, 2
 			if prop == "C01" {
